@@ -504,3 +504,62 @@ func emitSites(p *pkg, server *pkg, out string) {
 	lf.pf("]\n")
 	lf.write(out)
 }
+
+// ---------- which addenda an entry carries, as each function sees it (C02, C09) ----------
+
+// addendaFieldsIn lists, in source order without repeats, the struct fields named Addenda* that a function
+// selects (x.Addenda02, entry.Addenda05, ...).
+func (p *pkg) addendaFieldsIn(key string) []string {
+	fd, ok := p.funcs[key]
+	if !ok || fd.Body == nil {
+		return []string{unrec("addenda fields: no function %s", key)}
+	}
+	var out []string
+	seen := map[string]bool{}
+	ast.Inspect(fd.Body, func(n ast.Node) bool {
+		if se, ok := n.(*ast.SelectorExpr); ok && strings.HasPrefix(se.Sel.Name, "Addenda") && !seen[se.Sel.Name] {
+			if _, isCall := se.X.(*ast.CallExpr); !isCall {
+				seen[se.Sel.Name] = true
+				out = append(out, se.Sel.Name)
+			}
+		}
+		return true
+	})
+	return out
+}
+
+func (p *pkg) addendaStructFields(typ string) []string {
+	var out []string
+	if ts := p.types[typ]; ts != nil {
+		if st, ok := ts.Type.(*ast.StructType); ok {
+			for _, f := range st.Fields.List {
+				for _, n := range f.Names {
+					if strings.HasPrefix(n.Name, "Addenda") && strings.Contains(p.src(f.Type), "*Addenda") {
+						out = append(out, n.Name)
+					}
+				}
+			}
+		}
+	}
+	return out
+}
+
+func emitAddenda(p *pkg, out string) {
+	lf := newLean("Addenda")
+	lf.pf("/-- the Addenda* fields each function selects, in source order; `struct:<T>` = the addenda-record fields of T -/\n")
+	lf.pf("def addendaFields : List (String × List String) := [\n")
+	keys := []string{"EntryDetail.addendaCount", "Writer.writeBatch", "Writer.writeIATBatch", "IATBatch.isBatchEntryCount",
+		"IATBatch.addendaFieldInclusion", "Batch.isAddendaSequence", "IATBatch.isAddendaSequence"}
+	for _, k := range keys {
+		lf.pf("  (%s, %s),\n", leanStr(k), leanStrList(p.addendaFieldsIn(k)))
+	}
+	for i, t := range []string{"EntryDetail", "IATEntryDetail", "ADVEntryDetail"} {
+		sep := ","
+		if i == 2 {
+			sep = ""
+		}
+		lf.pf("  (%s, %s)%s\n", leanStr("struct:"+t), leanStrList(p.addendaStructFields(t)), sep)
+	}
+	lf.pf("]\n")
+	lf.write(out)
+}
